@@ -86,10 +86,14 @@ impl LoopSignal {
         ensures
             // C11: run() never returns Ok without having read the stop flag as raised
             r is Ok ==> w_flag_loaded(old(self).stop_flag(), true),
+            // ... and it starts by LOWERING the flag: a stop request left over from an earlier run does not end this one
+            // before its first iteration (only a stop issued after run() has begun counts)
+            w_flag_stored(old(self).stop_flag(), false),
 //@ loop 1
         invariant
             forall|d: &mut Data| #[trigger] call_requires(cb, (d,)),
             self.stop_flag() == old(self).stop_flag(),
+            w_flag_stored(old(self).stop_flag(), false),
         ensures
             // (stated on the loop so that it holds for either form of it: `while !stop {..}` or `loop { if stop { break } .. }`)
             w_flag_loaded(old(self).stop_flag(), true),
@@ -100,6 +104,9 @@ impl<'l, Data> EventLoop<'l, Data> {
 //@ slice src/loop_logic.rs / impl EventLoop<'l, Data> / fn block_on :: after <<let mut context = Context::from_waker(&waker);>> props=C11 name=EventLoop::block_on::loop
 //@ rw R19 * <<self.signals.stop.store(>> => <<flag_store(&self.signals.stop, >>
 //@ rw R19 * <<self.signals.stop.load(Ordering::Acquire)>> => <<flag_load_at(&self.signals.stop, Ordering::Acquire, Ghost(*data))>>
+//@ before <<cb(data);>>
+            // C13/C11: in block_on too the idle phase runs after the event phase and before the per-iteration closure
+            assert(self.idles_done());
 //@ before <<self.dispatch_events(None, data)?;>>
             // C11: an iteration is entered only right after a stop check that said "not stopped" (no per-iteration closure in between)
             assert(w_flag_loaded_at(self.stop_flag(), false, *data));
@@ -121,8 +128,9 @@ impl<'l, Data> EventLoop<'l, Data> {
             // is seen by the next iteration (never overwritten)
             may_poll_future() <==> w_flag_swapped(old(self).ready_flag(), false, true),
         ensures
-            // C11: polled initially: the ready flag is raised before the first iteration
+            // C11: polled initially: the ready flag is raised before the first iteration; the stop flag is lowered first
             w_flag_stored(old(self).ready_flag(), true),
+            w_flag_stored(old(self).stop_flag(), false),
             // Some(v) exactly from a poll that returned Ready(v); None only after the stop flag was read as raised
             r matches Ok(Some(v)) ==> w_future_ready(v),
             r matches Ok(None) ==> w_flag_loaded(old(self).stop_flag(), true),
@@ -133,7 +141,7 @@ impl<'l, Data> EventLoop<'l, Data> {
             forall|d: &mut Data| #[trigger] call_requires(cb, (d,)),
             self.stop_flag() == old(self).stop_flag(), self.ready_flag() == old(self).ready_flag(),
             may_poll_future() <==> w_flag_swapped(old(self).ready_flag(), false, true),
-            w_flag_stored(old(self).ready_flag(), true),
+            w_flag_stored(old(self).ready_flag(), true), w_flag_stored(old(self).stop_flag(), false),
         ensures
             output matches Some(v) ==> w_future_ready(v),
             output is None ==> w_flag_loaded(old(self).stop_flag(), true),
